@@ -176,8 +176,14 @@ func (ins *Instance[L, Elem]) Forward(fn *ir.Function) {
 					Decision: d.Decision,
 				}
 
-				for _, ref := range *instr.Referrers() {
-					worklist[ref] = struct{}{}
+				// The users of the value whose state changed have to be
+				// revisited. That value is not necessarily instr: a transfer
+				// function may map other values (such as the extracts of a
+				// tuple), and instr may not be a value at all.
+				if refs := d.Value.Referrers(); refs != nil {
+					for _, ref := range *refs {
+						worklist[ref] = struct{}{}
+					}
 				}
 			}
 		}
